@@ -157,7 +157,7 @@ func C18(c *Ctx) {
 		"decided per module: section prefixes are distinct single constant bytes initialised by composite literals and never written; every store access in module code uses a key whose first segment is such a prefix (so sections cannot alias); " +
 		"each builder is injective (all segments fixed-width or length-prefixed, at most a trailing Raw); integers are big-endian (byte order = numeric order); iteration prefixes end on a segment boundary of the builders of their section; " +
 		"the stream-key parsers read exactly the offsets the builder writes and return (receiver, sender) in builder order; query callbacks re-prefix with the section they iterate. Covers all identifier/height/address values because the layout, not sampled values, is analysed."
-	r.Rules = []string{"A11.prefix-distinct", "A11.prefix-immutable", "A11.section-resolved", "A11.injective", "A11.big-endian", "A11.iter-prefix", "A11.parser", "A11.reprefix"}
+	r.Rules = []string{"A11.prefix-distinct", "A11.prefix-immutable", "A11.iter-end-bound", "A11.section-resolved", "A11.injective", "A11.big-endian", "A11.iter-prefix", "A11.parser", "A11.reprefix"}
 	r.Trusted = []string{"address.MustLengthPrefix emits one length byte + payload and panics above 255 bytes", "sdk.KVStorePrefixIterator / prefix.Store semantics", "binary.BigEndian.PutUint64"}
 	r.NotDecided = []string{"behaviour of the IAVL store itself"}
 
@@ -206,6 +206,26 @@ func C18(c *Ctx) {
 		r.OK("A11.prefix-immutable", "none", "", "no assignment to a prefix variable outside package init")
 	}
 	r.Control("A11.prefix-immutable", "fixtures/c18", len(w.FixtureEffects(func(e ir.Effect) bool { return e.Kind == "GlobalWrite" })) > 0)
+
+	// raw iterators never end at an ordinary key
+	{
+		var mods, fix []*ssa.Function
+		for _, f := range w.Funcs {
+			switch {
+			case ir.IsFixture(f) && strings.Contains(fn(f), "fixtures/c18"):
+				fix = append(fix, f)
+			case !w.IsGenerated(f) && !ir.IsFixture(f) && ir.ModuleOf(f) != "":
+				mods = append(mods, f)
+			}
+		}
+		sortFuncs(mods)
+		ni, nbad := iterEndBounds(c, "A11.iter-end-bound", mods, true)
+		if nbad == 0 {
+			r.OK("A11.iter-end-bound", "none", "", fmt.Sprintf("no raw store iterator with an ordinary key as its (exclusive) end bound (%d raw iterators)", ni))
+		}
+		_, fb := iterEndBounds(c, "A11.iter-end-bound", fix, false)
+		r.Control("A11.iter-end-bound", "fixtures/c18", fb >= 1)
+	}
 
 	// every store access in module (non-migration) code resolves to a section
 	nStore := 0
